@@ -26,25 +26,26 @@ Check C10_member_remove_refuted :
 Check C10_folds_map_refine :
   forall (A B C : Type) (fl : B -> option A -> option B) (fr : option A -> B -> option B)
          (f : option A -> option C) (l : list (option A)) (acc : B),
-    has_failing l = false ->
     foldl_impl fl l acc = foldl_spec fl l acc /\
     foldr_impl fr l acc = foldr_spec fr l acc /\
     map_impl f l = map_spec f l.
-Check C10_folds_map_refine_strict :
-  forall (A B C : Type) (fl : B -> option A -> option B) (fr : option A -> B -> option B)
-         (f : option A -> option C) (l : list (option A)) (acc : B),
-    (forall a, fl a None = None) -> (forall a, fr None a = None) -> f None = None ->
-    foldl_impl fl l acc = foldl_spec fl l acc /\
-    foldr_impl fr l acc = foldr_spec fr l acc /\
-    map_impl f l = map_spec f l.
-Check C10_callback_forced_refuted :
+Check C10_callback_forced_old_refuted :
   exists (l : list (option val)) (init : val),
     has_failing l = true /\
-    foldl_impl (fun acc t => lapply2 L2Fst (Some acc) t) l init = None /\
+    foldl_impl_old (fun acc t => lapply2 L2Fst (Some acc) t) l init = None /\
     foldl_spec (fun acc t => lapply2 L2Fst (Some acc) t) l init = Some init /\
-    foldr_impl (fun t acc => lapply2 L2Snd t (Some acc)) l init = None /\
+    foldr_impl_old (fun t acc => lapply2 L2Snd t (Some acc)) l init = None /\
     foldr_spec (fun t acc => lapply2 L2Snd t (Some acc)) l init = Some init /\
-    map_impl (lapply FConst) l = [None] /\ map_spec (lapply FConst) l = [Some (VNum 7)].
+    map_impl_old (lapply FConst) l = [None] /\ map_spec (lapply FConst) l = [Some (VNum 7)].
+Check C10_mapi_filter_refine :
+  forall (A B : Type) (fi : nat -> option A -> option B) (f : option A -> option B)
+         (p : option A -> option bool) (l : list (option A)),
+    mapi_impl fi 0 l = mapi_spec fi l /\
+    filter_impl p l = filter_spec p l /\
+    filter_map_impl f p l = filter_map_spec f p l.
+Check C10_flatmap_refine :
+  forall (A B : Type) (ff : option A -> option (option (list (option B)))) (l : list (option A)),
+    returns_null ff l = false -> flatmap_impl ff l = flatmap_spec ff l.
 Check C10_reverse_refines :
   forall (A : Type) (l : list A),
     reverse_impl l = reverse_spec l /\ reverse_spec l = map (@Some A) (rev l).
@@ -60,6 +61,11 @@ Check C10_top1_on_empty :
   forall (A K : Type) (keyl : option A -> option K) (cmp : K -> K -> option comparison)
          (ord want : comparison) (on_empty : option (option A)),
     top1_impl keyl cmp ord [] on_empty = top1_spec keyl cmp want [] on_empty.
+Check C10_top1_key_forced_refuted :
+  exists l : list (option val),
+    has_failing l = true /\ first_key_incomparable (lkeyfn (Some FConst)) cmp_val l = false /\
+    top1_impl (lkeyfn (Some FConst)) cmp_val Lt l None = None /\
+    top1_spec (lkeyfn (Some FConst)) cmp_val Gt l None = Some (VNum 1).
 Check C10_top1_first_key_refuted :
   exists l : list (option val),
     has_failing l = false /\ first_key_incomparable (lkeyfn None) cmp_val l = true /\
@@ -103,3 +109,10 @@ Check eq_refl : ends_with_spec eqv [Some (VNum 1); Some (VNum 2)] [Some (VNum 1)
 Check eq_refl : arr_equals_spec eqv [Some (VNum 1); None] [Some (VNum 2); None] = Some false.
 Check eq_refl : err_after_match eqv [Some (VNum 1); None] (VNum 1) = true.
 Check eq_refl : lknown (LMinArray [Some VNull] None None) = 3.
+Check eq_refl : flatmap_spec (lflat LMDup) [None; Some (VNum 1)] = Some [None; None; Some (VNum 1); Some (VNum 1)].
+Check eq_refl : flatmap_spec (lflat LMErrElem) [Some (VNum 1)] = Some [None].
+Check eq_refl : filter_spec (lpred FTrue) [None; Some (VNum 1)] = Some [None; Some (VNum 1)].
+Check eq_refl : filter_map_spec (lapply FConst) (lpred FTrue) [None] = Some [Some (VNum 7)].
+Check eq_refl : mapi_spec (fun i t => lapply2 L2Snd (Some (VNum (Z.of_nat i))) t) [None; Some (VNum 5)] = [None; Some (VNum 5)].
+Check eq_refl : lknown (LFoldl L2Fst [None] (VNum 0)) = 0.
+Check eq_refl : lknown (LMinArray [Some (VNum 1); None] (Some FConst) None) = 2.
